@@ -38,7 +38,7 @@ EXPECT_MIN_NONTRIVIAL = 1000
 
 def _ref_jd(dt: datetime) -> float:
     # JD of 0001-01-01 00:00 (proleptic Gregorian ordinal 1) is 1721425.5
-    return (dt.toordinal() + 1721424.5) + (dt.hour * 3600 + dt.minute * 60 + dt.second) / 86400.0
+    return (dt.toordinal() + 1721424.5) + (dt.hour * 3600 + dt.minute * 60 + dt.second + dt.microsecond * 1e-6) / 86400.0
 
 
 def _seed_day(seed: int, k: int) -> date:
@@ -146,6 +146,8 @@ def items(tier, seed):
     # the configured instants are UTC whatever the HOST's time zone is (POSIX TZ strings: no tzdata needed)
     for tz in HOST_ZONES:
         out.append(("host_tz", tz))
+    # start instants with a fractional second: the recorded epochs are start + k*step, timestamp AND Julian date
+    out.append(("frac_start", [250, 125, 400]))
     return out
 
 
@@ -556,6 +558,51 @@ def _run_host_tz(res, item):
         _time.tzset()
 
 
+def _run_frac_start(res, item):
+    from resonaate.data.epoch import Epoch  # noqa: PLC0415
+    from sqlalchemy.orm import Query  # noqa: PLC0415
+
+    for ms in item[1]:
+        for base in (datetime(2021, 3, 30, 16, 0, 7), datetime(2019, 12, 31, 23, 58, 59)):
+            for step in (60, 450):
+                st = base + timedelta(milliseconds=ms)
+                n = 4
+                cfg = scen.config(
+                    st, n + 1,
+                    [scen.engine(1, [scen.target_eci(10001, *scen.LEO_A)], [scen.ground_sensor(20001, 10.0, 20.0)])],
+                    physics=step, truth_only=True,
+                )
+                case = {"start": st.isoformat(), "start_fraction_ms": ms, "step": step}
+                err, got = None, []
+                try:
+                    sc = scen.build(cfg)
+                    for _ in range(n):
+                        sc.stepForward()
+                        sc.saveDatabaseOutput()
+                    got = sorted(((float(e.julian_date), e.timestampISO) for e in sc.database.getData(Query(Epoch))))
+                    clock_start = float(sc.clock.julian_date_start)
+                except Exception as exc:  # noqa: BLE001
+                    err = f"{type(exc).__name__}: {exc}"
+                want = [st + timedelta(seconds=k * step) for k in range(n + 2)]
+                ok = (err is None and [g[1] for g in got] == [w.isoformat(timespec="microseconds") for w in want]
+                      and all(abs(g[0] - _ref_jd(w)) <= 2e-9 for g, w in zip(got, want))
+                      and abs(clock_start - _ref_jd(st)) <= 2e-9)
+                res.case(
+                    "frac_start/epochs",
+                    case,
+                    ok,
+                    nontrivial=True,
+                    signature="C05/frac_start/epoch_jd_not_start_plus_k_step" if err is None else "C05/frac_start/error",
+                    observed={"first": got[:2], "error": err},
+                    expected={"first": [(_ref_jd(w), w.isoformat()) for w in want[:2]]},
+                    item=item,
+                )
+                res.observe(got)
+                res.states += n + 1
+                res.transitions += n
+                res.traces += 1
+
+
 def run_item(item):
     res = fw.Result()
     kind = item[0]
@@ -573,6 +620,8 @@ def run_item(item):
         _run_entry(res, item)
     elif kind == "host_tz":
         _run_host_tz(res, item)
+    elif kind == "frac_start":
+        _run_frac_start(res, item)
     else:
         raise ValueError(kind)
     return res
